@@ -72,7 +72,7 @@ def qtok(j):
 class C02(Prop):
     id = "C02"
     anchored = ["src/pewlib/io/agilent.py"]
-    cases = {"quick": 300, "thorough": 30000}
+    cases = {"quick": 300, "thorough": 10000}
     rule = ("synthetic .b batches written with the fixture layouts: 1..5 lines, 2..6 scans, 1..4 masses (one batch in twenty: up to 16 lines, "
             "40 scans, 60 masses), MS / MS with XAddition / MS_MS (incl. product order != precursor order, transitions sharing a product or "
             "a precursor m/z, the method file listing them in any order), every subset of {BatchLog.xml, BatchLog.csv, AcqMethod.xml, MSTS_XAddition.xml}, "
@@ -153,7 +153,13 @@ class C02(Prop):
         stamp = "".join(rng.choice("0123456789") for _ in range(rng.randint(13, 20)))
         stamp = rng.choice("123456789") + stamp[1:]
         cw = rng.choice([1, 2, 4])
+        while 10 ** cw < 4 * n:   # the counter must have room for n distinct values
+            cw += 1
+        tries = 0
         while len(names) < n:
+            tries += 1
+            if tries > 50 * n + 200:   # a style that cannot deliver n distinct numbers: fall back
+                style = "wide"
             num = rng.choice([rng.randint(0, 12), rng.randint(0, 12), rng.randint(8, 130), rng.randint(90, 1100)])
             width = rng.choice([0, 0, 0, 2, 3, 4])
             prefix = rng.choice(["", "", "", "", "line", "s_", "B", "Z", "a"])
